@@ -85,12 +85,19 @@ const CIRC: [&[(i64, i64)]; 3] = [
 
 /// point tuples (as f64) that are exactly degenerate before perturbation
 fn tuple(rng: &mut Rng, n: usize, f32mode: bool) -> Vec<(f64, f64)> {
-    let kind = rng.below(10);
+    tuple_ex(rng, n, f32mode, false)
+}
+
+/// `exact`: small integers times a moderate power of two, no perturbation - every float formula
+/// evaluated on such a tuple (dot products, squared distances, midpoints) is exact
+fn tuple_ex(rng: &mut Rng, n: usize, f32mode: bool, exact: bool) -> Vec<(f64, f64)> {
+    let kind = if exact { rng.below(7) } else { rng.below(10) };
     let kmax: i64 = if f32mode { 100 } else { 190 };
     let kmin: i64 = if f32mode { -100 } else { -138 };
     let scale = 2f64.powi(match rng.below(4) {
         0 => 0,
         1 => rng.range(-8, 8) as i32,
+        _ if exact => rng.range(-20, 20) as i32,
         _ => rng.range(kmin, kmax) as i32,
     });
     let mut pts: Vec<(f64, f64)> = Vec::new();
@@ -148,7 +155,7 @@ fn tuple(rng: &mut Rng, n: usize, f32mode: bool) -> Vec<(f64, f64)> {
         p.1 *= scale;
     }
     // perturb the last point (sometimes others) by a few ulps
-    if rng.chance(700) {
+    if !exact && rng.chance(700) {
         let i = if rng.chance(700) { n - 1 } else { rng.below(n as u64) as usize };
         let k = rng.range(-3, 3);
         if f32mode {
@@ -308,7 +315,11 @@ pub fn run(seed: u64, count: u64) {
                 "incirc" | "isec" => 4,
                 _ => 3,
             };
-            let pts = tuple(&mut rng, n, f32mode);
+            let pts = if what == "proj" || what == "encr" {
+                tuple_ex(&mut rng, n, f32mode, true)
+            } else {
+                tuple(&mut rng, n, f32mode)
+            };
             if what == "isec" {
                 // the function's contract excludes collinear input (it asserts); skip exact collinearity
                 // judged by the exact predicate itself
